@@ -4,6 +4,7 @@ import (
 	"fmt"
 	"math"
 	"sort"
+	"time"
 
 	cstate "0chain.net/chaincore/chain/state"
 	"0chain.net/chaincore/smartcontract"
@@ -279,8 +280,7 @@ func (r *Runner) Step(st sim.Step) bool {
 		r.EnsureBlock()
 		r.EndBlock(st.Int(1, 0) != 0)
 	case "clock":
-		w.Now += common.Timestamp(st.Int(0, 1))
-		w.Tr.SimTime += float64(st.Int(0, 1))
+		w.Advance(st.Int(0, 1))
 	default:
 		if h, ok := r.Ops[st.Op]; ok {
 			h(r, st)
@@ -321,5 +321,20 @@ func GenBase(r *sim.RNG, p *sim.Plan, n int, weights map[string]int) {
 			st.I = []int64{int64(r.Pick([]int{5, 3, 2, 1})*0 + []int{1, 10, 3600, 86400 * 30}[r.Pick([]int{5, 3, 2, 1})])}
 		}
 		p.Steps = append(p.Steps, st)
+	}
+}
+
+// Advance moves the simulated clock forward by d seconds; inside a bubble the
+// wall clock (time.Now) follows.
+func (w *World) Advance(d int64) {
+	if d <= 0 {
+		return
+	}
+	w.Now += common.Timestamp(d)
+	w.Tr.SimTime += float64(d)
+	if w.InBubble {
+		if dt := time.Until(time.Unix(int64(w.Now), 0)); dt > 0 {
+			time.Sleep(dt)
+		}
 	}
 }
